@@ -35,7 +35,8 @@ MANIFEST = dict(
          "information model's step - the theorems are about the source text as it is now. log_integrate_log_trap, "
          "_NSIntegralState.finalise and .log_posterior_weights are translated too (harness/pylogvec2lean.py -> Gen/Trapezoid.lean) and "
          "trapezoid_source_eq_model / finalise_source_eq_model / posterior_weights_source_eq_model prove them equal to the model's "
-         "trap, St.finalise and St.postW for every vector; get_logx_live_points (both expectations) is translated as well and logx_live_source_eq_model proves it equal to St.logxLive. "
+         "trap, St.finalise and St.postW for every vector; get_logx_live_points (both expectations) is translated as well and logx_live_source_eq_model proves it equal to St.logxLive; posterior.compute_weights (all of it after the live-count schedule) is translated too and "
+         "compute_weights_source_eq_model proves it equal to the model's computeWeights. "
          "INFORMATION AND UNCERTAINTY (Model/Information.lean, the recursion of increment with the logarithm as a parameter): "
          "for every logarithm function, ordered field and length >= 2 the accumulated value is the textbook information "
          "H = sum p_i lg L_i - lg Z (info_eq_textbook); over R, H >= -log(1 - X_N) >= 0 by Gibbs' inequality, hence "
@@ -91,6 +92,13 @@ def gen(ctx):
     gen_trapezoid(ctx)
 
 
+# sha256 (16 hex digits) of the unparsed schedule statement of posterior.compute_weights:
+#   if isinstance(nlive, (int, float)): nlive_per_iteration = nlive * np.ones_like(samples); nlive_per_iteration[-nlive:] = np.arange(nlive, 0, -1, dtype=float)
+#   else: (length check -> ValueError); nlive_per_iteration = nlive.copy()
+# modelled by Quad.scheduleOnePass / the `.arr` arm of Quad.computeWeights and tied by the correspondence
+COMPUTE_WEIGHTS_SCHEDULE_SHA = "95ed6e9c99ad2621"
+
+
 def gen_trapezoid(ctx):
     """regenerate Gen/Trapezoid.lean: log_integrate_log_trap, _NSIntegralState.finalise and .log_posterior_weights translated
     from the current source (harness/pylogvec2lean.py: log vectors -> linear domain); C02.trapezoid_source_eq_model,
@@ -112,6 +120,14 @@ def gen_trapezoid(ctx):
         V.VecSpec(source="nessai/evidence.py", cls="_NSIntegralState", func="get_logx_live_points", name="get_logx_live_points",
                   params=[("nlive", "nlive", V.NAT)], result="Option (List K)", uses_ex=True,
                   self_attrs={"logw": ("logw", V.LOG), "expectation": ("expectation", V.STR)}, **common),
+        # the one-pass evaluation: everything after the live-count schedule (the leading `if isinstance(nlive, (int, float))` statement
+        # is the model's `scheduleOnePass`, pinned by its sha256 and replaced by the parameter `nlive_per_iteration`); `expectation`
+        # stands for expectation.lower()
+        V.VecSpec(source="nessai/posterior.py", func="compute_weights", name="compute_weights",
+                  params=[("samples", "samples", V.VLOG), ("nlive", None, V.OPTNAT), ("expectation", "expectation", V.STR)],
+                  result="Except Err (K × List K)", uses_ex=True, extra_binders="(nlive_per_iteration : List Nat)", calls=calls,
+                  given={"isinstance(nlive, (int, float))": (COMPUTE_WEIGHTS_SCHEDULE_SHA, {"nlive_per_iteration": ("VNAT", "nlive_per_iteration")})},
+                  **common),
     ]
     parts, infos = [], {}
     try:
